@@ -20,7 +20,8 @@ vocabulary of `xmp_get_module_info`):
 * **XM pattern-cell codec** — `C19_xm_cell_codec` / `C19_xm_cells_codec`: unpacked cells and packed cells
   with every superset of the needed mask bits, opaque effect and volume-column-effect bytes.
 * **IT field codecs** — `C19_it_field_codecs_partial` (see below for what is missing).
-* shared: `C19_pcm_sign8_involutive`.
+* PCM storage: `C19_pcm_sign8_involutive`, `C19_pcm_sign16_involutive`, `C19_pcm_delta8`, `C19_pcm_delta16`
+  (stereo block ↔ interleaved conversion is not proved).
 
 Full statements that are NOT proved (the file-level assembly of S3M, XM, IT and the IT mask/last-value
 pattern compression); they are evaluated on every generated case of every run instead (`rt ok` of
@@ -117,5 +118,14 @@ theorem C19_it_field_codecs_partial :
 
 theorem C19_pcm_sign8_involutive (b : Bytes) : signFlip false (signFlip false b) = b :=
   signFlip8_involutive b
+
+/-- unsigned ↔ signed 16-bit storage (S3M ffi 2, IT convert bit 0 clear) -/
+theorem C19_pcm_sign16_involutive (b : Bytes) (n : Nat) (h : b.length = 2 * n) : signFlip true (signFlip true b) = b :=
+  signFlip16_involutive b n h
+
+/-- XM delta storage, 8-bit and 16-bit (per channel block) -/
+theorem C19_pcm_delta8 (b : Bytes) : deltaDec false (deltaEnc false b) = b := deltaDec_deltaEnc8 b
+theorem C19_pcm_delta16 (b : Bytes) (n : Nat) (h : b.length = 2 * n) : deltaDec true (deltaEnc true b) = b :=
+  deltaDec_deltaEnc16 b n h
 
 end Xmp.Fmt
